@@ -6,4 +6,6 @@ for id in "$@"; do
   WTSIM_VERIF_DIR=/tmp/try-seed /verif/bin/check "$id" quick 2>&1 | grep -E "VIOLATION|^check|HARNESS|^error" | cut -c1-360 | head -6
 done
 git -C /repo checkout -- . ; rm -rf /tmp/try-seed
+# leave the harness binary built from the clean tree again
+(cd /verif/sim && cargo build --release --offline >/dev/null 2>&1)
 git -C /repo status --short | head -3
